@@ -155,9 +155,10 @@ def run_for_property(prop, tier="quick", only=None, jobs=4):
                 r["playback"] = playback(dst, h["name"])
             return r
         if todo:
-            results.append(one(todo[0]))
-            with concurrent.futures.ThreadPoolExecutor(max_workers=jobs) as ex:
-                results += list(ex.map(one, todo[1:]))
+            # the dependencies are warm (pv setup); cargo serialises the crate builds on its build-directory lock,
+            # the CBMC runs overlap
+            with concurrent.futures.ThreadPoolExecutor(max_workers=max(jobs, 6)) as ex:
+                results += list(ex.map(one, todo))
         return {"status": "ok", "results": results, "units": [u["id"] for u in units]}
     finally:
         try:
